@@ -139,8 +139,12 @@ SHIPPED_NAMES = ['default_a16w8_recipe', 'default_a8w8_recipe',
                  'dynamic_wi8_afp32_recipe', 'recipe.dynamic_wi8_afp32()']
 
 
-def quantize_like_tensor(x, detail):
-  """Quantize a float input for a (possibly quantized) model input tensor."""
+def quantize_like_tensor(x, detail, narrow_if_symmetric=False):
+  """Quantize a float input for a (possibly quantized) model input tensor.
+
+  narrow_if_symmetric: clip to [-qmax, qmax] when the zero point is 0, the
+  convention validate() itself uses when it feeds a quantized model.
+  """
   qp = detail['quantization_parameters']
   if len(qp['scales']) == 0:
     return x.astype(detail['dtype'])
@@ -148,7 +152,8 @@ def quantize_like_tensor(x, detail):
   zp = int(qp['zero_points'][0])
   info = np.iinfo(detail['dtype'])
   q = np.rint(x.astype(np.float64) / scale) + zp
-  return np.clip(q, info.min, info.max).astype(detail['dtype'])
+  lo = info.min + 1 if (narrow_if_symmetric and zp == 0) else info.min
+  return np.clip(q, lo, info.max).astype(detail['dtype'])
 
 
 def uses_skip_checks(out):
